@@ -13,7 +13,7 @@ from ref import adu, pdu, datamodel
 
 from pymodbus.exceptions import ModbusIOException
 
-PEER_MENU = ['own', 'own-exception', 'nothing', 'garbage', 'other-unit', 'stale+own', 'stale', 'other-function', 'late', 'reset', 'bad-length']
+PEER_MENU = ['own', 'own-exception', 'nothing', 'garbage', 'other-unit', 'stale+own', 'stale', 'other-function', 'late', 'reset', 'bad-length', 'bad-body']
 READ_MENU = ['full', 'short0', 'short1', 'short-1', 'oserror', 'eof']
 SEND_MENU = ['ok', 'oserror']
 UNIT = 0x11
@@ -155,6 +155,11 @@ class Sim(object):
             g = {'tcp': adu.build('tcp', unit, bytes([m['fc']]), tid=tid)[:4] + b'\x00\x01' + bytes([unit, m['fc'], 0xDE, 0xAD, 0xBE, 0xEF]),
                  'rtu': bytes([unit]), 'ascii': b':', 'binary': b'{'}[fr]
             self.push(g, dict(what='garbage', tid=None, unit=None, fc=None))
+        elif b == 'bad-body':
+            # framing and checksum are right, the PDU inside contradicts itself (byte count 3 with 3 data bytes for
+            # registers, or a count that promises more than is there)
+            body = bytes([m['fc'], 3, 0x12, 0x34, 0x56]) if m['fc'] in (3, 4) else bytes([m['fc'], 4, 0x12, 0x34])
+            self.push(F(unit, body), dict(meta, what='garbage', pdu=body))
         elif b == 'other-unit':
             body = self.own_reply(tid, unit, m)
             self.push(F((unit + 1) & 0xFF or 1, body), dict(meta, unit=(unit + 1) & 0xFF or 1, what='other-unit', pdu=body))
